@@ -43,21 +43,25 @@ impl<'a> BerDecoder<'a> for SnmpReal {
 
                 // 8.5.7.4 Bits 2 to 1 of the first contents octet
                 // shall encode the format of the exponent as follows:
-                let ln = (f & 0x03) as usize + 2;
-                if i.len() < ln {
+                // 00, 01, 10 => 1, 2, 3 exponent octets follow,
+                // 11 => the next octet holds the number of the exponent octets.
+                let (e_start, e_len) = match f & 0x03 {
+                    3 => (2, *i.get(1).ok_or(SnmpError::InvalidData)? as usize),
+                    n => (1, n as usize + 1),
+                };
+                let m_start = e_start + e_len;
+                // Exponent is two's complement, mantissa is unsigned,
+                // and must be at least of one octet
+                if e_len == 0 || e_len > 8 || i.len() <= m_start || i.len() - m_start > 16 {
                     return Err(SnmpError::InvalidData);
                 }
-                let e = SnmpReal::parse_u32(&i[1..ln]) as i32;
-                let mut v: f64 = SnmpReal::parse_u32(&i[ln..]).into();
-                // 8.5.7.3: Bits 4 to 3 of the first contents octet shall
-                // encode the value of the binary scaling factor F
-                // as an unsigned binary integer.
-                match (f & 0x0c) >> 2 {
-                    1 => v *= 2.0,
-                    2 => v *= 4.0,
-                    3 => v *= 8.0,
-                    _ => return Err(SnmpError::InvalidData),
-                }
+                let e_init: i64 = if i[e_start] & 0x80 == 0 { 0 } else { -1 };
+                let e = i[e_start..m_start]
+                    .iter()
+                    .fold(e_init, |acc, x| (acc << 8) | (*x as i64));
+                let n = i[m_start..]
+                    .iter()
+                    .fold(0u128, |acc, x| (acc << 8) | (*x as u128));
                 // 8.5.7.2: Bits 6 to 5 of the first contents octets
                 // shall encode the value of the base B' as follows:
                 // Bits6to5 => Base
@@ -65,19 +69,26 @@ impl<'a> BerDecoder<'a> for SnmpReal {
                 // 01 => base 8
                 // 10 => base 16
                 // 11 => Reserved for further editions of this Recommendation | International Standard.
-                let base: f64 = match f & 0x30 {
-                    0 => 2.0,
-                    0x10 => 8.0,
-                    0x20 => 16.0,
+                let base_bits: i64 = match f & 0x30 {
+                    0 => 1,
+                    0x10 => 3,
+                    0x20 => 4,
                     _ => return Err(SnmpError::InvalidData),
                 };
-                v *= base.powi(e);
+                // 8.5.7.3: Bits 4 to 3 of the first contents octet shall
+                // encode the value of the binary scaling factor F
+                // as an unsigned binary integer.
+                let scale = ((f & 0x0c) >> 2) as i64;
+                // M = S * N * 2^F, value = M * B^E.
+                // Power of two, clamped beyond the f64 range to prevent overflow.
+                let p = e
+                    .saturating_mul(base_bits)
+                    .saturating_add(scale)
+                    .clamp(-1400, 1200) as i32;
+                let v = (n as f64) * 2f64.powi(p / 2) * 2f64.powi(p - p / 2);
                 // 8.5.7.1: Bit 7 of the first contents octets
                 // shall be 1 if S is –1 and 0 otherwise.
-                if f & 0x40 == 0x40 {
-                    v = -v
-                }
-                v
+                if f & 0x40 == 0x40 { -v } else { v }
             }
             f if f & 0xc0 == 0 => {
                 // 8.5.8: Decimal encoding
@@ -91,8 +102,10 @@ impl<'a> BerDecoder<'a> for SnmpReal {
                     // ISO 6093 NR1: i.e. 456
                     1 => {
                         let s = from_utf8(&i[1..]).map_err(|_| SnmpError::InvalidData)?;
-                        let v = s.parse::<i32>().map_err(|_| SnmpError::InvalidData)?;
-                        v.into()
+                        if !s.bytes().all(|c| c.is_ascii_digit() || c == b'+' || c == b'-') {
+                            return Err(SnmpError::InvalidData);
+                        }
+                        s.parse::<f64>().map_err(|_| SnmpError::InvalidData)?
                     }
                     // ISO 6093 NR2: i.e. 456.7
                     2 => {
@@ -113,16 +126,6 @@ impl<'a> BerDecoder<'a> for SnmpReal {
             0b01000011 => -0.0,
             _ => return Err(SnmpError::InvalidData),
         }))
-    }
-}
-
-impl SnmpReal {
-    fn parse_u32(i: &[u8]) -> u32 {
-        let mut v = 0u32;
-        for &n in i.iter() {
-            v = (v << 8) | (n as u32);
-        }
-        v
     }
 }
 
